@@ -1205,6 +1205,14 @@ class Interp:
             ins = [edge_out[(p, node)] for p in preds.get(node, ()) if (p, node) in edge_out]
             if not ins:
                 continue
+            if body.blocks[bb].term.k == "return" and len(ins) > 1 and not body.blocks[bb].stmts:
+                # keep the exit classes apart: one return state per incoming edge
+                for key_ in [x for x in ret_nodes if isinstance(x, tuple) and len(x) == 3 and x[0] == "edge" and x[1] == node]:
+                    del ret_nodes[key_]
+                for p_ in sorted((p for p in preds.get(node, ()) if (p, node) in edge_out), key=str):
+                    ret_nodes[("edge", node, p_)] = edge_out[(p_, node)]
+                run.visited.add(bb)
+                continue
             cur = ins[0]
             nkey = (fid, node)
             for j, s2 in enumerate(ins[1:]):
@@ -1268,10 +1276,39 @@ class Interp:
         rets = [s for _, s in sorted(ret_nodes.items(), key=lambda x: str(x[0]))]
         if not rets:
             return BOT, None
-        out = rets[0]
-        for j, s2 in enumerate(rets[1:]):
-            out = Joiner(((fid, "ret"), j), out, s2, False, fr.thr).run()
-        rv = out.store.get(("L", fid, 0), UNIT)
+        # join return states per exit class first (Ok / Err, Some / None), then
+        # across classes; facts that hold in one class only become guards of
+        # that variant of the returned value
+        R0 = ("L", fid, 0)
+        classes = {}
+        for s in rets:
+            v = s.store.get(R0)
+            k = tuple(sorted(v.variants)) if isinstance(v, EnumV) else None
+            classes.setdefault(k, []).append(s)
+        parts = []
+        for k in sorted(classes, key=str):
+            o = classes[k][0]
+            for j, s2 in enumerate(classes[k][1:]):
+                o = Joiner(((fid, "retc", k), j), o, s2, False, fr.thr).run()
+            parts.append((k, o))
+        out = parts[0][1]
+        extra_guards = {}
+        for j, (k2, s2) in enumerate(parts[1:]):
+            jn = Joiner(((fid, "ret"), j), out, s2, False, fr.thr)
+            k1 = parts[0][0] if j == 0 else None
+            out = jn.run()
+            if k1 is not None and len(k1) == 1 and jn.only1:
+                extra_guards.setdefault(k1[0], []).extend(jn.only1)
+            if k2 is not None and len(k2) == 1 and jn.only2:
+                extra_guards.setdefault(k2[0], []).extend(jn.only2)
+        rv = out.store.get(R0, UNIT)
+        if extra_guards and isinstance(rv, EnumV):
+            gs = dict(rv.guards)
+            for vi, lst in extra_guards.items():
+                if vi in rv.variants:
+                    gs[vi] = tuple(gs.get(vi, ())) + tuple(lst[:12])
+            rv = EnumV(rv.name, rv.variants, gs)
+            out.store[R0] = rv
         # drop the callee's locals
         for r in [r for r in out.store if r[0] == "L" and r[1] == fid]:
             del out.store[r]
